@@ -311,3 +311,32 @@ def unsafe_int_cast(self, nodes):
 def safe_int_cast(self, nodes):
     nodes = util.safe_np_int_cast(nodes, np.int32)
     return self._ll_tables.subset(nodes)
+
+
+class Cache:
+    def cache_escape(self):
+        if self._pairs is None:
+            self._pairs = self._ll.get_keys()
+        return self._pairs
+
+    def cache_frozen(self):
+        if self._pairs is None:
+            self._pairs = self._ll.get_keys()
+            self._pairs.flags.writeable = False
+        return self._pairs
+
+
+def return_before_check(self, index):
+    if index.all():
+        return self.copy()
+    if len(index) != len(self):
+        raise IndexError("Boolean index must be same length as table")
+    return self.take(index)
+
+
+def check_before_return(self, index):
+    if len(index) != len(self):
+        raise IndexError("Boolean index must be same length as table")
+    if index.all():
+        return self.copy()
+    return self.take(index)
